@@ -195,10 +195,16 @@ class Cache(object):
                         last_cache_filled_ind = ind
                         break
             if last_cache_filled_ind is not None:
+                # elements without data (like SetContext) before the cache
+                # are kept: they make the static context
+                # of the elements that follow
+                no_data = [el for el in seq[:last_cache_filled_ind]
+                           if hasattr(el, "_has_no_data")]
                 return lena.core.Source(
-                    lena.core.SourceEl(seq[last_cache_filled_ind],
-                                       call="_load_flow"),
-                    *seq[last_cache_filled_ind+1:]
+                    *(no_data
+                      + [lena.core.SourceEl(seq[last_cache_filled_ind],
+                                            call="_load_flow")]
+                      + list(seq[last_cache_filled_ind+1:]))
                 )
         else:
             # Cache element
